@@ -172,7 +172,7 @@ def tok_vcs():
         return [ip.to_z3(t) == TOKID, z3.And(s2 <= S, S - s2 < shift), z3.And(e2 - E <= shift, E - e2 <= shift), s2 <= e2]
 
     stubs = {"numpy.isreal": lambda I, x: True}
-    return [VC("C11.tok.roundtrip", "transcript_to_token;token_to_transcript", M, "transcript_to_token", thunk, pre=[S >= 0, E >= S, FS > 0],
+    return [VC("C11.P.tok_roundtrip", "transcript_to_token;token_to_transcript", M, "transcript_to_token", thunk, pre=[S >= 0, E >= S, FS > 0],
                posts=[("id_preserved_times_within_one_frame_shift", post)], stubs=stubs,
                twins=[("times_exact", lambda p: ip.to_z3(p.value[0][2]) == E if api.returns(p) and isinstance(p.value, list) and p.value and isinstance(p.value[0], tuple) else None)],
                inputs={"start": S, "end": E, "frame_shift_ms": FS, "token": TOKID}, replay=replay_tok,
